@@ -63,6 +63,8 @@ class C01(Prop):
                 g.sticky = rng.choice([0.5, 0.8])
             g.before = i % 7 == 5  # another function in front of @f: every function is optimised as if it were alone
             g.callee = i % 7 == 3
+            if i % 7 == 1:
+                g.readcall = 0.3  # calls that return a value (impure inputs of setups): oracle only
             yield {"kind": "dedup", "src": g.program(), "xseed": rng.getrandbits(32)}
         for i in range(100 if tier == "quick" else 1500):
             # small single-accelerator programs over three configurations (alternating / restoring inside a loop)
